@@ -39,6 +39,23 @@ theorem unmarshalNotify_ne_fault (b : Bytes) : unmarshalNotify b ≠ .fault := b
       · simp
       · go_steps; simp
 
+theorem deleteSPIs_ne_fault (n : Nat) (b : Bytes) (h : 4 * n ≤ b.length) : deleteSPIs n b ≠ .fault := by
+  induction n generalizing b with
+  | zero => simp [deleteSPIs]
+  | succ n ih =>
+    match b, h with
+    | b0 :: b1 :: b2 :: b3 :: rest, h =>
+      simp only [deleteSPIs]
+      have := ih rest (by simp at h; omega)
+      cases hr : deleteSPIs n rest with
+      | ok l => simp
+      | err => simp
+      | fault => exact absurd hr this
+    | [], h => simp at h
+    | [_], h => simp at h; omega
+    | [_, _], h => simp at h; omega
+    | [_, _, _], h => simp at h; omega
+
 theorem unmarshalDelete_ne_fault (b : Bytes) : unmarshalDelete b ≠ .fault := by
   unfold unmarshalDelete
   split
@@ -48,7 +65,23 @@ theorem unmarshalDelete_ne_fault (b : Bytes) : unmarshalDelete b ≠ .fault := b
     · go_steps
       split
       · simp
-      · go_steps; simp
+      · split
+        · simp
+        · rename_i h0 h3 hlen hs
+          go_steps
+          have hb : 4 * (be16 (byteAt b 2) (byteAt b 3)).toNat ≤ (List.drop 4 b).length := by
+            simp only [Bool.and_eq_true, decide_eq_true_eq, bne_iff_ne, ne_eq, not_and, Decidable.not_not] at hs
+            simp only [List.length_drop]
+            by_cases hz : (be16 (byteAt b 2) (byteAt b 3)).toNat > 0
+            · have h4 := hs hz
+              have : (byteAt b 1).toNat = 4 := by rw [h4]; rfl
+              rw [this] at hlen
+              omega
+            · omega
+          cases hd : deleteSPIs _ (List.drop 4 b) with
+          | ok l => simp
+          | err => simp
+          | fault => exact absurd hd (deleteSPIs_ne_fault _ _ hb)
 
 /-! ### Configuration -/
 
@@ -800,7 +833,10 @@ theorem unmarshalPayload_sk (t nx : UInt8) (body : Bytes) (n : UInt8) (d : Bytes
       · revert h; go_steps
         split
         · simp
-        · go_steps; simp
+        · split
+          · simp
+          · go_steps
+            cases hd : deleteSPIs _ _ <;> simp
   rw [if_neg h10] at h
   by_cases h11 : (t == Facts.typeV) = true
   · rw [if_pos h11] at h; simp at h
